@@ -949,7 +949,7 @@ Definition rule_broken (k : kind) (it : item) : Prop :=
   end.
 
 Definition file_level (k : kind) : Prop :=
-  k = KIOError \/ k = KProtoNameUndefined \/ k = KImportInEnum \/ k = KDuplicatedDefinition \/ k = KFuel.
+  k = KIOError \/ k = KProtoNameUndefined \/ k = KDuplicatedDefinition \/ k = KFuel.
 
 Definition rule_kind_ok (k : kind) (d : def) : Prop :=
   match k with
@@ -1075,7 +1075,7 @@ Section Cites.
 
   Lemma eval_cexpr_err st l e k f l' :
     eval_cexpr file st l e = Err k f l' ->
-    f = file /\ l' = l /\ (k = KRefConstNotDefined \/ k = KRefNotConst \/ k = KCalcExpr \/ k = KZeroDivCrash).
+    f = file /\ l' = l /\ (k = KRefConstNotDefined \/ k = KRefNotConst \/ k = KCalcExpr).
   Proof.
     induction e as [z|p|a IHa b IHb|a IHa b IHb|a IHa b IHb|a IHa b IHb]; cbn [eval_cexpr]; try discriminate.
     - destruct (resolve_const_ref file st l p) as [v|k1 a1 b1] eqn:Er; cbn [bind].
@@ -1130,9 +1130,7 @@ Section Cites.
       match type of H with (if has_name ?n _ then _ else _) = _ => set (name := n) in * end.
       destruct (has_name name _). { inversion H; subst. mine. exact I. }
       destruct (push_member cur name (DProto cf cn cm)) as [f'|k0 a0 b0] eqn:Em; cbn [bind] in H.
-      + destruct (fk cur); inversion H; subst.
-        * mine. exact I.
-        * left. right. split; [reflexivity|]. unfold file_level. tauto.
+      + destruct (fk cur); inversion H; subst; mine; exact I.
       + inversion H; subst. apply push_member_err in Em. cbn [def_loc lfile lline] in Em.
         destruct Em as [-> [-> Hk]]. left. right. split; [reflexivity|].
         unfold file_level. destruct k; cbn [member_kind_ok] in Hk; try contradiction;
@@ -1150,7 +1148,7 @@ Section Cites.
       + inversion H; subst. destruct v as [b|s|p|e]; cbn [eval_cvalx] in Ev; try discriminate.
         * apply resolve_const_err in Ev. destruct Ev as [-> [-> [->| ->]]]; mine; exact I.
         * destruct (eval_cexpr file (cur :: outer) l0 e) as [z|k1 a1 b1] eqn:Ee; cbn [bind] in Ev; [discriminate|].
-          inversion Ev; subst. apply eval_cexpr_err in Ee. destruct Ee as [-> [-> [->|[->|[->| ->]]]]]; mine; exact I.
+          inversion Ev; subst. apply eval_cexpr_err in Ee. destruct Ee as [-> [-> [->|[->| ->]]]]; mine; exact I.
     - (* alias *)
       cbn [proc_item] in H.
       destruct (resolve_tyx file trad (cur :: outer) l0 t) as [tr|k0 a0 b0] eqn:Et; cbn [bind] in H.
@@ -1253,9 +1251,10 @@ Theorem check_error_cites fs root trad k f l :
 Proof. apply parse_file_error_cites. Qed.
 
 (* the property TEXT has no clause about division by zero: a schema that meets every listed
-   clause is not accepted *)
-Theorem text_completeness_refuted :
-  exists fs root, ValidText fs root false /\ exists f l, check fs root false = Err KZeroDivCrash f l.
+   clause is nevertheless rejected (since fix ba6c9a1 as an ordinary CalculationExpressionError
+   at the line of the expression) *)
+Theorem text_has_no_division_clause :
+  exists fs root, ValidText fs root false /\ check fs root false = Err KCalcExpr root 2.
 Proof.
   exists [("r"%string, [IProto 1 "r"; IConst 2 "A" (CExpr (EDiv (EInt 1) (EInt 0)))]%string)], "r"%string.
   split.
@@ -1266,5 +1265,5 @@ Proof.
         eexists. split; [|split; [reflexivity|reflexivity]].
         apply VOExpr. apply EODiv; [apply EOInt|apply EOInt|now right].
     + split; reflexivity.
-  - exists "r"%string, 2. vm_compute. reflexivity.
+  - vm_compute. reflexivity.
 Qed.
